@@ -1600,8 +1600,16 @@ class H2Connection:
                     frame.stream_id
                 )
 
+            # Only a stream ID of the peer's that it has not used yet opens a
+            # stream. A frame on any other ID is answered below according to
+            # how that stream was closed.
             max_open_streams = self.local_settings.max_concurrent_streams
-            if (self.open_inbound_streams + 1) > max_open_streams:
+            open_streams = self.open_inbound_streams
+            opens_stream = (
+                not self._stream_id_is_outbound(frame.stream_id) and
+                frame.stream_id > self.highest_inbound_stream_id
+            )
+            if opens_stream and (open_streams + 1) > max_open_streams:
                 raise TooManyStreamsError(
                     "Max outbound streams is %d, %d open" %
                     (max_open_streams, self.open_outbound_streams)
